@@ -45,6 +45,27 @@ def main():
         s = surface(rng)
         operations.insert_knot(s, [0.4, 0.6], [1, 2])
         out['surf'] = s.ctrlpts
+        # results the caller adjusts in place must not leak into later calls, whatever the cache size
+        from geomdl import knotvector, linalg
+        rep = []
+        for fn, args in ((knotvector.generate, (3, 8)), (knotvector.generate, (2, 5)), (linalg.linspace, (0.0, 1.0, 5)),
+                         (linalg.matrix_identity, (3,)), (linalg.matrix_transpose, (((1.0, 2.0), (3.0, 4.0)),)),
+                         (linalg.vector_generate, ((0.0, 0.0, 0.0), (1.0, 2.0, 3.0)))):
+            try:
+                a = fn(*args)
+            except TypeError:
+                continue
+            first = [list(r) if isinstance(r, (list, tuple)) else r for r in a]
+            if isinstance(a, list):
+                for i in range(len(a)):
+                    if isinstance(a[i], list):
+                        for j in range(len(a[i])):
+                            a[i][j] = a[i][j] + 0.125
+                    else:
+                        a[i] = a[i] + 0.125
+            b = fn(*args)
+            rep.append([fn.__name__, first, [list(r) if isinstance(r, (list, tuple)) else r for r in b]])
+        out['regen'] = rep
     elif scenario == 'samplesize':
         lo, hi = seed, nproc          # argv[3], argv[4] reused as the range of sample sizes
         c = curve(random.Random(1))
